@@ -8,6 +8,7 @@
 -/
 import SuplaVerif.Model.Page
 import SuplaVerif.Gen.Html
+import SuplaVerif.Props.C14
 
 namespace SuplaVerif.C15
 open Bytes
@@ -45,16 +46,55 @@ theorem c15_no_secret_read_anywhere : ∀ v ∈ Gen.pageAllRefs, ∀ f ∈ v.2, 
 theorem c15_tail_hidden (c : Cfg) (name tail tail' : Bytes) (hn : ∀ x ∈ name, x ≠ 0)
     (h : c .Email = name ++ 0 :: tail) (c' : Cfg) (h' : c' .Email = name ++ 0 :: tail') :
     view c .Email = view c' .Email := by
-  have key : ∀ (p r : Bytes), (∀ x ∈ p, x ≠ 0) → cstr (p ++ 0 :: r) = p := by
+  have key : ∀ (p r : Bytes), (∀ x ∈ p, x ≠ 0) → Bytes.cstr (p ++ 0 :: r) = p := by
     intro p r hp
     induction p with
-    | nil => simp [cstr]
+    | nil => simp [Bytes.cstr]
     | cons x xs ih =>
       have hx : x ≠ 0 := hp x (by simp)
-      simp only [List.cons_append, cstr, hx, if_false]
+      simp only [List.cons_append, Bytes.cstr, hx, if_false]
       rw [ih (fun y hy => hp y (by simp [hy]))]
   simp only [view, CfgField.isText, if_true]
   rw [h, h', key name tail hn, key name tail' hn]
+
+/-- the form model's and the page model's "read up to the first NUL" are the same function -/
+theorem cstr_eq : ∀ (b : Bytes), SuplaVerif.cstr b = Bytes.cstr b := by
+  intro b
+  induction b with
+  | nil => simp [SuplaVerif.cstr, Bytes.cstr]
+  | cons x xs ih => simp only [SuplaVerif.cstr, Bytes.cstr, ih]
+
+/-- a string with a terminator inside splits at it: the bytes `cstr` returns, the terminator, a rest -/
+theorem cstr_split : ∀ (b : Bytes), (Bytes.cstr b).length < b.length → ∃ r, b = Bytes.cstr b ++ 0 :: r := by
+  intro b
+  induction b with
+  | nil => intro h; simp [Bytes.cstr] at h
+  | cons x xs ih =>
+    intro h
+    unfold Bytes.cstr at h ⊢
+    by_cases hx : x = 0
+    · rw [if_pos hx]; exact ⟨xs, by simp [hx]⟩
+    · rw [if_neg hx] at h ⊢
+      obtain ⟨r, hr⟩ := ih (by simpa using h)
+      exact ⟨r, by simp only [List.cons_append]; rw [← hr]⟩
+
+/-- **C15 ↔ C14 (the `%s` read stays inside the field)** the `view` of C15 reads a text field up to its first NUL; C14 proves
+    that whatever the form handler leaves in a text field is `stored size w` with a terminator inside the field.  Joined:
+    for every text field written by the form handler the page's `%s` argument reads fewer than `size` bytes, none of them
+    NUL, and the field really is that string followed by a terminator - the read cannot run on into the neighbouring
+    member (e.g. from the SSID into the Wi-Fi password behind it) -/
+theorem c15_view_inside_stored_field (c : Cfg) (f : CfgField) (ht : f.isText = true) (size : Nat) (hs : 0 < size)
+    (w : Bytes) (hw : w.length ≤ size) (h : c f = stored size w) :
+    (view c f).length < size ∧ (0 : UInt8) ∉ view c f ∧ (c f).length ≤ size ∧ ∃ r, c f = view c f ++ 0 :: r := by
+  have st := C14.stored_terminated size hs w hw
+  have hlt := C14.cstr_lt_of_last _ st.2
+  have hnn := (C14.cstr_no_nul (stored size w)).1
+  rw [cstr_eq] at hlt hnn
+  simp only [view, ht, if_true, h]
+  exact ⟨by omega, hnn, st.1, cstr_split _ hlt⟩
+
+/-- non-vacuity: a 4-byte field holding "ab" -/
+example : stored 4 [97, 98] = [97, 98, 0] ∧ Bytes.cstr (stored 4 [97, 98]) = [97, 98] := by decide
 
 /-- every page variant exists and shows the SSID (non-vacuity of the table) -/
 theorem c15_variants_present : Gen.pageArgs.length = 7 ∧ ∀ v ∈ Gen.pageArgs, CfgField.WIFI_SSID ∈ v.2 := by
